@@ -102,6 +102,32 @@ pub fn replay(s: &mut Summary, v: &V) {
     }
 }
 
+/// a needle whose length is near a power of two, and a haystack that contains it (or a near miss of it)
+/// after a non-empty random prefix
+pub fn gen_long_case(rng: &mut SmallRng) -> (String, String) {
+    const LENS: [usize; 14] = [7, 8, 9, 15, 16, 17, 31, 32, 33, 34, 47, 63, 64, 65];
+    let nlen = LENS[rng.gen_range(0..LENS.len())];
+    let ab = |rng: &mut SmallRng, k: usize| -> String { (0..k).map(|_| if rng.gen_bool(0.5) { 'a' } else { 'b' }).collect() };
+    let n = ab(rng, nlen);
+    let k0 = rng.gen_range(0..=12);
+    let mut h = ab(rng, k0);
+    for _ in 0..rng.gen_range(1..=2) {
+        match rng.gen_range(0..4) {
+            0 => {
+                // near miss: the needle with one character flipped
+                let k = rng.gen_range(0..nlen);
+                let mut m: Vec<u8> = n.clone().into_bytes();
+                m[k] = if m[k] == b'a' { b'b' } else { b'a' };
+                h.push_str(std::str::from_utf8(&m).unwrap());
+            }
+            _ => h.push_str(&n),
+        }
+        let k1 = rng.gen_range(0..=6);
+        h.push_str(&ab(rng, k1));
+    }
+    (h, n)
+}
+
 /// random haystack built from fragments of the needle, so that partial matches abound
 pub fn gen_case(rng: &mut SmallRng) -> (String, String) {
     let alpha: [&str; 5] = ["a", "b", "ñ", "√", ","];
@@ -137,9 +163,27 @@ pub fn record(rng: &mut SmallRng, n_events: usize, out: &mut dyn Write) {
             if left == 0 {
                 break;
             }
-            let ret = catch(std::panic::AssertUnwindSafe(|| str_op!(op, h.as_str(), n.as_str())));
+            // a one-character needle is passed as a `char` pattern half of the time
+            let mut cs = n.chars();
+            let single = match (cs.next(), cs.next()) { (Some(c), None) => Some(c), _ => None };
+            let ret = match single {
+                Some(c) if rng.gen_bool(0.5) => catch(std::panic::AssertUnwindSafe(|| str_op!(op, h.as_str(), c))),
+                _ => catch(std::panic::AssertUnwindSafe(|| str_op!(op, h.as_str(), n.as_str()))),
+            };
             writeln!(out, "{}", json!({"ev": op, "h": js(&h), "n": js(&n), "ret": ret})).unwrap();
             left -= 1;
+        }
+        // long needles (lengths around 8, 16, 32, 64 bytes) inside longer haystacks, one case in four
+        if rng.gen_range(0..4) == 0 {
+            let (h, n) = gen_long_case(rng);
+            for op in OPS {
+                if left == 0 {
+                    break;
+                }
+                let ret = catch(std::panic::AssertUnwindSafe(|| str_op!(op, h.as_str(), n.as_str())));
+                writeln!(out, "{}", json!({"ev": op, "h": js(&h), "n": js(&n), "ret": ret})).unwrap();
+                left -= 1;
+            }
         }
         // arbitrary (non-UTF-8) bytes through the slice::bytes_* twins
         let raw: [u8; 5] = [b'a', 0x80, 0xA0, 0xC3, 0xFF];
